@@ -21,7 +21,7 @@ func verifC07(kind, V, rounds int, seed uint32) {
 	// dirty instance: before every real event, a speculative Build that is never processed and a
 	// Process with a wrong claimed frame (symbolic which), then a Build of the real event.
 	dirty := newVNode(r.vals, nil, nil, nil)
-	junk := sym.Choice("junk", 4) // 0: speculative build, 1: wrong frame above, 2: both, 3: decoy build (other parents)
+	junk := sym.Choice("junk", 5) // 0: speculative build, 1: wrong frame above, 2: both, 3: decoy build (other parents), 4: draft re-built
 	last := make([]int, V)        // latest event of every validator among those fed so far
 	for v := range last {
 		last[v] = -1
@@ -77,6 +77,20 @@ func verifC07(kind, V, rounds int, seed uint32) {
 			sym.Assert(dirty.lch.Build(spec) == nil, "speculative Build succeeds")
 			sym.Assert(spec.Frame() == e.Frame(), "Build assigns the same frame on the instance with earlier builds/rejections (C07)")
 			sym.Reach("decoy")
+		}
+		if inject && junk == 4 && r.d.script[i].self >= 0 {
+			// the SAME mutable event object is built twice: first as a draft that knows only its self-parent,
+			// then completed with its real parents and built again (the emitter re-using its event under construction)
+			obj := r.d.materialise(i, 1)
+			realParents, realLamport := obj.Parents(), obj.Lamport()
+			obj.SetParents(hash.Events{realParents[0]})
+			obj.SetLamport(r.d.evs[r.d.script[i].self].Lamport() + 1)
+			sym.Assert(dirty.lch.Build(obj) == nil, "Build of a draft succeeds")
+			obj.SetParents(realParents)
+			obj.SetLamport(realLamport)
+			sym.Assert(dirty.lch.Build(obj) == nil, "Build of the completed event succeeds")
+			sym.Assert(obj.Frame() == e.Frame(), "Build assigns the same frame on the instance with earlier builds/rejections (C07)")
+			sym.Reach("draft-rebuilt")
 		}
 		dirty.events[e.ID()] = e
 		sym.Assert(dirty.lch.Process(e) == nil, "later events are accepted exactly as on the clean instance (C07)")
@@ -148,7 +162,11 @@ func VerifH_C08_lcgV4()  { verifC08(4, 4, 6, 3) }
 // ---------------------------------------------------------------------
 // C09: epoch sealing switches cleanly to the new validator set
 
-func vNewWeights(V int) (*pos.Validators, []pos.Weight) {
+func vNewWeights(V int) (*pos.Validators, []pos.Weight) { return vNewWeightsOrd(V, false) }
+
+// ascending: the new weights are strictly increasing with the validator index, so the canonical order of the
+// new set is the REVERSE of the old one
+func vNewWeightsOrd(V int, ascending bool) (*pos.Validators, []pos.Weight) {
 	xn := [...]string{"x0", "x1", "x2", "x3"}
 	ids := make([]idx.ValidatorID, V)
 	ws := make([]pos.Weight, V)
@@ -157,8 +175,11 @@ func vNewWeights(V int) (*pos.Validators, []pos.Weight) {
 		ids[i] = idx.ValidatorID(i + 1)
 		ws[i] = pos.Weight(sym.U32(xn[i]))
 		sym.Assume(ws[i] >= 1)
-		if i > 0 {
+		if i > 0 && !ascending {
 			sym.Assume(ws[i-1] >= ws[i])
+		}
+		if i > 0 && ascending {
+			sym.Assume(ws[i-1] < ws[i])
 		}
 		total += uint64(ws[i])
 	}
@@ -179,7 +200,8 @@ func sameValidators(a, b *pos.Validators) bool {
 
 func verifC09(kind, V, rounds int, seed uint32) {
 	r := newVRun(kind, V, rounds, seed)
-	newVals, newWs := vNewWeights(V)
+	reversed := sym.Choice("newOrder", 2) == 1 // the new set keeps / reverses the canonical order of the validators
+	newVals, newWs := vNewWeightsOrd(V, reversed)
 	sealAt := idx.Frame(1 + sym.Choice("sealAt", 2)) // the block that seals the epoch
 	r.n0.seal = func(b *vBlock) *pos.Validators {
 		if b.epoch == 1 && b.frame == sealAt {
@@ -223,6 +245,12 @@ func verifC09(kind, V, rounds int, seed uint32) {
 	script2 := vScript(0, V, 5, seed+1)
 	d2 := &vDag{script: script2, evs: make([]*dag.MutableBaseEvent, len(script2)), anc: make([][]bool, len(script2)), V: V}
 	ref2 := &vRef{d: d2, w: newWs, q: newVals.Quorum(), frames: make([]idx.Frame, len(script2))}
+	if reversed {
+		for v := V - 1; v >= 0; v-- {
+			ref2.order = append(ref2.order, v)
+		}
+		sym.Reach("order-reversed")
+	}
 	direct := newVNode(r.vals, nil, nil, nil)
 	sym.Assert(direct.lch.Reset(2, newVals) == nil, "Reset to the new epoch succeeds")
 	// and an instance restarted from the persisted databases right after the seal (C08 across an epoch boundary)
